@@ -477,6 +477,82 @@ def gen_mp_near_halfway(rng, f, count, focus_q=None):
                     out.append(("mp %s %d %d %d" % (f, ww, q, 1), "N-near-half-t"))
     return out[:count]
 
+def gen_mp_carry_seams(rng, f):
+    """(w, q) whose value rounds UP into a power of two across a seam of the encoding: just below the smallest normal
+    (the subnormal branch produces significand 2^mbits: the carry into the exponent field, seed C11-f), just below
+    other small powers of two, and just below 2^(emax+1) (carry into infinity).  n-digit truncations, n = 2..19."""
+    out = []
+    F = FMT[f]
+    mb, eb = F["mbits"], F["ebits"]
+    kmin = 2 - 2 ** (eb - 1) - mb
+    emax = 2 ** (eb - 1)
+    exps = [kmin + mb, kmin + mb + 1, kmin + mb - 1, kmin + 1, kmin + 2, kmin + mb // 2, emax, emax - 1, 0, 1, -1, 10, -10]
+    from fractions import Fraction
+    for e2 in exps:
+        V = Fraction(2) ** e2
+        for n in range(2, 20):
+            # q with V / 10^q having n integer digits
+            q = -400
+            import math
+            q = int(math.floor(e2 * math.log10(2))) - n + 1
+            for qq in (q - 1, q, q + 1):
+                x = V / (Fraction(10) ** qq)
+                w0 = x.numerator // x.denominator
+                if not (10 ** (n - 1) <= w0 < 10 ** n):
+                    continue
+                for d in (0, -1, -2, 1, -rng.randint(3, 40)):
+                    w = w0 + d
+                    if 0 < w < 2 ** 64:
+                        out.append(("mp %s %d %d 0" % (f, w, qq), "N-carry-seam"))
+                        out.append(("mp %s %d %d 1" % (f, w, qq), "N-carry-seam-t"))
+    return out
+
+_LIMB_BOUNDARY_CACHE = {}
+def gen_limb_boundary(f):
+    """slow-path inputs (negative decimal exponent -h) whose two big integers of negative_digit_comp straddle a limb
+    boundary 2^(64k): the halfway point (2m+1)*5^h*2^s lies within 2^-59 relative of 2^(64k) on one side and the
+    digits (2^(64k) - 1, 2^(64k), 2^(64k) + 1) on the other, so the two operands of the final comparison differ in
+    LENGTH and an ordering that looks at the top limbs first decides wrongly (seed C05-e).  Number-theoretic search
+    over h (deterministic, cached); very few (h, M) exist."""
+    if f in _LIMB_BOUNDARY_CACHE:
+        return _LIMB_BOUNDARY_CACHE[f]
+    import math
+    F = FMT[f]
+    mb, eb = F["mbits"], F["ebits"]
+    nb = mb + 2
+    maxdig = 768 if f == "f64" else 112
+    H = 1100 if f == "f64" else 160
+    emin10 = (2 - 2 ** (eb - 1)) * math.log10(2) + 1
+    emax10 = (2 ** (eb - 1)) * math.log10(2) - 1
+    out = []
+    p = 1
+    for h in range(1, H + 1):
+        p *= 5
+        bl = p.bit_length()
+        for j in range(bl + nb - 2, bl + nb + 1):
+            for M in ((1 << j) // p, (1 << j) // p + 1):
+                if M % 2 == 0 or not (1 << (nb - 1)) <= M < (1 << nb):
+                    continue
+                g = M * p - (1 << j)
+                if g == 0 or abs(g) << 59 >= (1 << j):
+                    continue
+                for k in range((j + 63) // 64, 63):
+                    B = 1 << (64 * k)
+                    n = len(str(B))
+                    if n > maxdig or n < 20:
+                        continue
+                    e10 = 64 * k * math.log10(2) - h
+                    if not emin10 < e10 < emax10:
+                        continue
+                    for D in (B - 1, B, B + 1, B - 2, B + 2):
+                        out.append((pf(f, str(D), "", -h), "B-limb-boundary"))
+                    # the same digits with the decimal point moved (fraction digits instead of a negative exponent)
+                    sD = str(B - 1 if g > 0 else B)
+                    if h < len(sD):
+                        out.append((pf(f, sD[:len(sD) - h], sD[len(sD) - h:], 0), "B-limb-boundary"))
+    _LIMB_BOUNDARY_CACHE[f] = out
+    return out
+
 def gen_mp_exact_guard(rng, f, per_q=6):
     """exact products (5^q fits 64 bits, low table word 0) whose guard bits are all ones: the second
     multiplication is taken and the carry comparison sees second_hi == first_lo == 0"""
@@ -1181,6 +1257,9 @@ def gen_frontend(rng, count):
                 s += rng.choice(["", "", "+", "-"])
                 k = rng.random()
                 if k < 0.5:
+                    # small exponents, often zero-padded (a field of 11+ characters whose value is small: seed C19-e)
+                    if rng.random() < 0.35:
+                        s += "0" * rng.choice([1, 2, 7, 8, 9, 10, 11, 12, 20, 30])
                     s += str(rng.randint(0, 400))
                 elif k < 0.6:
                     s += ""
